@@ -181,6 +181,9 @@ fn check_serde_limits(v: &(u8, u32, u8), rep: &mut Rep) -> Result<(), String> {
     Ok(())
 }
 
+#[path = "c18_many_args.rs"]
+mod many_args;
+
 /// the dlt_args! macro reports the number of arguments it wrote
 fn check_dlt_args(v: &(u32, i16, bool, String, f64), rep: &mut Rep) -> Result<(), String> {
     let (a, b, c, d, e) = v;
@@ -195,6 +198,15 @@ fn check_dlt_args(v: &(u32, i16, bool, String, f64), rep: &mut Rep) -> Result<()
         ensure_eq!(n as usize, want, "number of arguments reported by dlt_args!");
         let m = verbose_msg_vmm(be, n, p, 0x41);
         ensure_eq!((&m).into_iter().count(), want, "number of arguments decoded from the dlt_args! payload");
+    }
+    // the argument counter of a message is one byte: 255 arguments are the most a payload can announce, one more is refused
+    let (n, p) = many_args::args_255(*a).map_err(|e| format!("255 arguments refused: {:?}", e))?;
+    ensure_eq!(n, 255, "number of arguments reported by dlt_args! for 255 arguments");
+    let m = verbose_msg_vmm(be, n, p, 0x41);
+    ensure_eq!((&m).into_iter().count(), 255, "number of arguments decoded from the dlt_args! payload");
+    ensure!((&m).into_iter().all(|x| x.payload_raw == a.to_ne_bytes()), "255 arguments: values differ");
+    if let Ok((n, p)) = many_args::args_256(*a) {
+        return Err(format!("dlt_args! with 256 arguments reports {} arguments ({} bytes) instead of an error", n, p.len()));
     }
     Ok(())
 }
